@@ -9,6 +9,8 @@ CONSTANTS
   Families = {}
   N = 3
   Reps = {1, 2, 3}
+  RuleCounts = {1}
+  ListLens = {1, 2, 3}
   MaxRounds = 9
 INVARIANTS NeverEmpty TaskOK
 PROPERTIES EventuallyConvergedForever
